@@ -791,7 +791,26 @@ class Exec:
         lits = tuple(v.value for v in e.values if isinstance(v, ast.Constant))
         res = []
         for c, vs in self.eval_list(nodes, ctx):
-            res.append((c, vs if isinstance(vs, ExcVal) else ("__fstr__", lits, tuple(vs))))
+            if isinstance(vs, ExcVal):
+                res.append((c, vs))
+                continue
+            # an Optional that cannot be None on this path is interpolated as its value
+            vs = [v.val if isinstance(v, Opt) and not self.feasible(c, v.is_none) else v for v in vs]
+            # an f-string whose interpolated values are all strings is the z3 concatenation; otherwise the message text is dropped
+            # and only (literal pieces, interpolated values) are kept
+            if vs and all(isinstance(v, str) or (z3.is_expr(v) and v.sort() == z3.StringSort()) for v in vs) and not any(
+                    v.format_spec is not None or v.conversion != -1 for v in e.values if isinstance(v, ast.FormattedValue)):
+                pieces = []
+                it = iter(vs)
+                for v in e.values:
+                    if isinstance(v, ast.Constant):
+                        pieces.append(z3.StringVal(v.value))
+                    else:
+                        x = next(it)
+                        pieces.append(z3.StringVal(x) if isinstance(x, str) else x)
+                res.append((c, z3.Concat(*pieces) if len(pieces) > 1 else pieces[0]))
+            else:
+                res.append((c, ("__fstr__", lits, tuple(vs))))
         return res
 
     def e_IfExp(self, e, ctx):
@@ -904,6 +923,10 @@ class Exec:
                 return [(ctx, l2 * r2)]
             if op == "Div":
                 return [(ctx, z3.ToReal(l2) / z3.ToReal(r2) if z3.is_int(l2) else l2 / (z3.ToReal(r2) if z3.is_int(r2) else r2))]
+            if op in ("Mod", "FloorDiv") and z3.is_int(l2) and z3.is_int(r2):
+                # Python floor semantics for a positive divisor (the only use in the code base); z3 div/mod are Euclidean, equal for r > 0
+                self.oblige(f"{self.unit}/{self.current_fn}/positive-divisor", ctx, r2 > 0)
+                return [(ctx, l2 % r2 if op == "Mod" else l2 / r2)]
         if op == "Add" and isinstance(l, list) and isinstance(r, list):
             return [(ctx, l + r)]
         if op == "Add" and isinstance(l, tuple) and isinstance(r, tuple):
@@ -912,6 +935,9 @@ class Exec:
             return [(ctx, l * r)]
         if op == "Add" and isinstance(l, str) and isinstance(r, str):
             return [(ctx, l + r)]
+        isstr = lambda x: isinstance(x, str) or (z3.is_expr(x) and x.sort() == z3.StringSort())
+        if op == "Add" and isstr(l) and isstr(r):
+            return [(ctx, z3.Concat(z3.StringVal(l) if isinstance(l, str) else l, z3.StringVal(r) if isinstance(r, str) else r))]
         raise GenError(f"binary op {op} on {l!r}, {r!r} at line {getattr(node, 'lineno', '?')}")
 
     @staticmethod
